@@ -480,3 +480,54 @@ impl Driver for NativeDriver {
         Time(self.count.load(Ordering::Relaxed))
     }
 }
+
+/// Verification hook: the output callback of the native driver (`NativeAudioData::process`)
+/// wired as `NativeDriver::init` wires it, without opening an audio device.
+#[cfg(mimium_verif)]
+pub struct VerifAudioCallback {
+    data: NativeAudioData,
+    input: HeapProd<f64>,
+    h_ochannels: usize,
+}
+#[cfg(mimium_verif)]
+impl VerifAudioCallback {
+    pub fn new(
+        driver: &mut NativeDriver,
+        runtime_data: RuntimeData,
+        sample_rate: u32,
+        h_ochannels: usize,
+    ) -> Self {
+        let mut runtime_data = runtime_data;
+        let ichannels = runtime_data.io_channels().map_or(0, |io| io.input) as usize;
+        let input_buffer_len = ichannels.max(1) * driver.buffer_size;
+        let (prod, cons) = HeapRb::<f64>::new(input_buffer_len).split();
+        let (swap_prod, swap_cons) = mpsc::channel();
+        driver.swap_prod = Some(swap_prod);
+        driver.hardware_ochannels = h_ochannels;
+        driver.sr.0.store(sample_rate, Ordering::Relaxed);
+        runtime_data.runtime.set_sample_rate(sample_rate as f64);
+        let data = NativeAudioData::new(
+            cons,
+            runtime_data,
+            driver.count.clone(),
+            driver.buffer_size,
+            swap_cons,
+        );
+        Self {
+            data,
+            input: prod,
+            h_ochannels,
+        }
+    }
+    /// What the input stream's callback leaves in the ring buffer.
+    pub fn push_input(&mut self, samples: &[f64]) -> usize {
+        self.input.push_slice(samples)
+    }
+    /// One invocation of the output stream's callback.
+    pub fn process(&mut self, dst: &mut [f32]) {
+        self.data.process(dst, self.h_ochannels)
+    }
+    pub fn runtime_data(&mut self) -> &mut RuntimeData {
+        &mut self.data.vmdata
+    }
+}
